@@ -47,6 +47,18 @@ def ref(n, pipe):
 
 
 def gen_cases(ctx):
+  for c in _gen_cases(ctx):
+    ctx.count('kind', c['kind'])
+    if 'workers' in c:
+      ctx.count('workers', c['workers'])
+    if 'shards' in c:
+      ctx.count('shards', c['shards'])
+    if 'mode' in c:
+      ctx.count('mode', c['mode'])
+    yield c
+
+
+def _gen_cases(ctx):
   rng = ctx.rng
   quick = ctx.quick
   for c in ctx.corpus():
